@@ -611,6 +611,69 @@ impl<T: Hv + Ord> Hv for BTreeSet<T> {
     }
 }
 
+/// A harness type that is `Ord` *and* has a mode-dependent encoding (2 bytes compressed, 4 bytes uncompressed), like
+/// a curve point but usable as a map key / set element: no shipped type combines the two, so without it a container
+/// that pins the wrong mode for its keys could not be told apart.
+#[derive(Clone, Copy, Debug, PartialEq, Eq, PartialOrd, Ord, Hash)]
+pub struct Md(pub u16);
+
+impl ark_serialize::Valid for Md {
+    fn check(&self) -> Result<(), ark_serialize::SerializationError> {
+        Ok(())
+    }
+}
+impl CanonicalSerialize for Md {
+    fn serialize_with_mode<W: ark_serialize::Write>(&self, mut w: W, c: Compress) -> Result<(), ark_serialize::SerializationError> {
+        match c {
+            Compress::Yes => w.write_all(&self.0.to_le_bytes())?,
+            Compress::No => w.write_all(&(self.0 as u32).to_le_bytes())?,
+        }
+        Ok(())
+    }
+    fn serialized_size(&self, c: Compress) -> usize {
+        match c {
+            Compress::Yes => 2,
+            Compress::No => 4,
+        }
+    }
+}
+impl CanonicalDeserialize for Md {
+    fn deserialize_with_mode<R: ark_serialize::Read>(mut r: R, c: Compress, _v: ark_serialize::Validate) -> Result<Self, ark_serialize::SerializationError> {
+        match c {
+            Compress::Yes => {
+                let mut b = [0u8; 2];
+                r.read_exact(&mut b)?;
+                Ok(Md(u16::from_le_bytes(b)))
+            },
+            Compress::No => {
+                let mut b = [0u8; 4];
+                r.read_exact(&mut b)?;
+                let v = u32::from_le_bytes(b);
+                if v > u16::MAX as u32 {
+                    return Err(ark_serialize::SerializationError::InvalidData);
+                }
+                Ok(Md(v as u16))
+            },
+        }
+    }
+}
+impl Hv for Md {
+    const MIN: usize = 2;
+    const SAFE: bool = true;
+    const CANON: bool = true;
+    const POINTS: bool = false;
+    const CHEAP: bool = true;
+    fn gen(g: &mut Gen<'_, '_>) -> Self {
+        Md(g.edge_u64() as u16)
+    }
+    fn enc(&self, c: Compress, e: &mut Enc) {
+        match c {
+            Compress::Yes => e.b.extend_from_slice(&self.0.to_le_bytes()),
+            Compress::No => e.b.extend_from_slice(&(self.0 as u32).to_le_bytes()),
+        }
+    }
+}
+
 impl<K: Hv + Ord, V: Hv> Hv for BTreeMap<K, V> {
     const MIN: usize = 8;
     const SAFE: bool = K::SAFE && V::SAFE && (K::MIN + V::MIN > 0);
